@@ -3,8 +3,8 @@
 (* C08 -- the patch chain of wow-mpq (patch_chain.rs) as a state machine.  *)
 (*                                                                         *)
 (* State                                                                   *)
-(*   vcont   what is on disk: [archive id -> [name -> entry]] (never       *)
-(*           changes; set by the MC instance or by the trace's Reset)      *)
+(*   Cont    (constant) what is on disk: [archive id -> [name -> entry]];  *)
+(*           bound by the MC instance or to the trace's Reset record       *)
 (*   vchain  the chain: sequence of [a, p, st] -- archive id, priority and *)
 (*           a ghost insertion rank `st` (1 = oldest (re)insertion);       *)
 (*           the code keeps `archives: Vec<ChainEntry>` highest first      *)
@@ -29,8 +29,10 @@
 (***************************************************************************)
 EXTENDS Integers, Sequences, SequencesExt, FiniteSets, TLC
 
-VARIABLES vcont, vchain, vmap
-pcvars == <<vcont, vchain, vmap>>
+CONSTANT Cont          \* what is on disk: [archive id -> [name -> entry]]
+VARIABLES vchain, vmap
+pcvars == <<vchain, vmap>>
+vcont == Cont
 
 \* ---------------------------------------------------------------- entries
 \* entry == [kind, c, before, after, cls]
@@ -76,7 +78,7 @@ AllExist(cont, l) == \A i \in 1..Len(l) : l[i].a \in ArchIds(cont)
 SeqBuild(ch, l)   == FoldLeft(LAMBDA c, e : Insert(c, e.a, e.p), ch, l)      \* one add_archive per element
 
 \* ---------------------------------------------------------------- actions
-Set(ch)  == /\ vchain' = ch /\ vmap' = Rebuild(ch, vcont) /\ UNCHANGED vcont
+Set(ch)  == /\ vchain' = ch /\ vmap' = Rebuild(vchain', vcont)     \* (primed: forces one evaluation of ch)
 Stutter  == UNCHANGED pcvars
 
 New                == Set(<<>>)
@@ -86,7 +88,7 @@ RemoveArchive(a)   == PosOf(vchain, a) # 0 /\ Set(ChRemove(vchain, a))
 RemoveAbsent(a)    == PosOf(vchain, a) = 0 /\ Stutter                         \* Ok(false)
 SetPriority(a, p)  == PosOf(vchain, a) # 0 /\ Set(Insert(ChRemove(vchain, a), a, p))
 SetPriorityFail(a) == PosOf(vchain, a) = 0 /\ Stutter                         \* Err, nothing removed
-Clear              == /\ vchain' = <<>> /\ vmap' = [n \in NamesOf(vcont) |-> 0] /\ UNCHANGED vcont
+Clear              == /\ vchain' = <<>> /\ vmap' = [n \in NamesOf(vcont) |-> 0]
 FromParallel(l)    == AllExist(vcont, l) /\ Set(StableSortDesc(Stamped(l)))   \* a new chain replaces the old
 FromParallelFail(l) == ~AllExist(vcont, l) /\ Stutter                         \* no chain is produced
 AddParallel(l)     == AllExist(vcont, l) /\ Set(SeqBuild(vchain, l))
